@@ -26,9 +26,9 @@ type C10Case struct {
 }
 
 var logoutFaults = map[string][]string{
-	"version":     {"absent", "1.1", "2.00", " 2.0", ""},
-	"destination": {"wrong", "slash", "case", "space", "lspace", "acs", "idp-slo"},
-	"issuer":      {"absent", "wrong", "slash", "case", "space", "empty"},
+	"version":     {"absent", "1.1", "2.00", " 2.0", "", "2", "02.0", "+2.0", "2e0", "2.0 ", "2.0.0", "0x1p1"},
+	"destination": append([]string{"wrong", "slash", "case", "space", "lspace", "acs", "idp-slo"}, cfgVariants...),
+	"issuer":      append([]string{"absent", "wrong", "slash", "case", "space", "empty"}, cfgVariants...),
 	"status":      {"absent"},
 	"statuscode":  {"absent", "Requester", "success-case", "empty", "valueabsent", "PartialLogout"},
 }
@@ -43,7 +43,7 @@ func applyLogoutFault(m *h.LogoutModel, sp h.SPConfig, f Fault) (ErrSpec, bool) 
 		}
 		return ErrSpec{Type: "ErrInvalidValue", Key: "SAML version", Reason: saml2.ReasonUnsupported}, true
 	case "destination":
-		v := nearMiss(sp.SLO, f.Variant)
+		v := wrongValue(sp, sp.SLO, f.Variant)
 		switch f.Variant {
 		case "acs": // the SP's OTHER endpoint is not its single-logout URL
 			v = sp.ACS
@@ -63,7 +63,7 @@ func applyLogoutFault(m *h.LogoutModel, sp h.SPConfig, f Fault) (ErrSpec, bool) 
 		if sp.IdPIssuer == "" {
 			return ErrSpec{}, false
 		}
-		v := nearMiss(sp.IdPIssuer, f.Variant)
+		v := wrongValue(sp, sp.IdPIssuer, f.Variant)
 		if v == sp.IdPIssuer {
 			return ErrSpec{}, false
 		}
